@@ -9,6 +9,7 @@ import (
 	"go/token"
 	"go/types"
 	"math"
+	"reflect"
 	"sort"
 	"strconv"
 	"strings"
@@ -176,6 +177,15 @@ func toNative(fr *frame, v value) any {
 			return fmt.Sprintf("%p", x.v)
 		case *types.Map, *types.Struct:
 			return toNative(fr, x.v)
+		case *types.Array:
+			// arrays of booleans keep their Go type so that %#v prints [N]bool{...} (the Basic Latin table)
+			if b, ok := u.Elem().Underlying().(*types.Basic); ok && b.Kind() == types.Bool {
+				arr := reflect.New(reflect.ArrayOf(int(u.Len()), reflect.TypeOf(false))).Elem()
+				for k, e := range x.v.(array) {
+					arr.Index(k).SetBool(toNative(fr, e).(bool))
+				}
+				return arr.Interface()
+			}
 		}
 		unsupported("fmt argument of type %s", x.t)
 	case []value:
@@ -267,7 +277,7 @@ func fieldIndex(t types.Type, name string) int {
 func nop0(fr *frame, args []value) (value, bool) { return nil, true }
 
 // fprint delivers formatted text to an io.Writer of the target program by
-// calling its Write method; writes to *os.File (stdout/stderr) are dropped.
+// calling its Write method; writes to *os.File (stdout/stderr) are only recorded.
 func fprint(fr *frame, w value, text string) value {
 	wi, ok := w.(iface)
 	if !ok || wi.t == nil {
@@ -275,6 +285,10 @@ func fprint(fr *frame, w value, text string) value {
 	}
 	if p, ok := wi.t.(*types.Pointer); ok {
 		if n, ok := p.Elem().(*types.Named); ok && n.Obj().Pkg() != nil && n.Obj().Pkg().Path() == "os" {
+			// kept per path so that a harness can ask whether a diagnostic was printed (symOSOutput)
+			if len(fr.i.osOut) < 1<<16 {
+				fr.i.osOut += text
+			}
 			return tuple{len(text), iface{}}
 		}
 	}
